@@ -14,8 +14,8 @@ Everything is emitted as plain nested lists/tuples of N (Generated.v knows no mo
 """
 import os, re, struct
 
-# modelled hand-written pairs keep fixed indices 0..5 (Typed/Hand.v hid_*)
-HAND_FIRST = ["Date", "Rectangle", "Matrix", "Action", "NameTree<Primitive>", "PagesRc"]
+# modelled hand-written pairs keep fixed indices 0..6 (Typed/Hand.v hid_*)
+HAND_FIRST = ["Date", "Rectangle", "Matrix", "Action", "NameTree<Primitive>", "PagesRc", "Encoding"]
 
 PRIMS = {"i32": 0, "u32": 1, "usize": 2, "f32": 3, "bool": 4, "Name": 5, "PdfString": 6, "Primitive": 7,
          "Dictionary": 8, "PlainRef": 9, "()": 10}
